@@ -267,6 +267,16 @@ def resolve_files(node: T.Any, stmts: T.List[T.Any], used: T.Set[int], depth: in
     if isinstance(node, M.IdNode):
         hits = [(i, st) for i, st in enumerate(stmts) if isinstance(st, M.AssignmentNode) and st.var_name.value == node.value]
         if len(hits) != 1:
+            # assigned in several places (branches, +=): which one reaches the target is a control-flow question the
+            # ground-truth evaluator answers; any of these statements may legitimately be the one that is edited
+            for i, st in enumerate(stmts):
+                if isinstance(st, (M.AssignmentNode, M.PlusAssignmentNode)) and st.var_name.value == node.value:
+                    used.add(i)
+            return [UNKNOWN]
+        if any(isinstance(st, M.PlusAssignmentNode) and st.var_name.value == node.value for st in stmts):
+            for i, st in enumerate(stmts):
+                if isinstance(st, (M.AssignmentNode, M.PlusAssignmentNode)) and st.var_name.value == node.value:
+                    used.add(i)
             return [UNKNOWN]
         used.add(hits[0][0])
         there = dirs[hits[0][0]] if dirs is not None else here
